@@ -305,27 +305,26 @@ pub fn eval(n: &Node, at: i64) -> R {
                     RV::Unspec("U3: gcd/lcm of a single negative argument")
                 }
                 Gcd => {
+                    // of the magnitudes: only the final value has to fit (gcd(MIN, 0, -37) = 37)
                     let mut g: i128 = 0;
-                    for (k, v) in vs.iter().enumerate() {
+                    for v in &vs {
                         g = gcd_i128(g, *v as i128);
-                        // (the first argument alone is not a running gcd yet: gcd(MIN, 2) = 2 is demanded)
-                        if g > MAX && (k > 0 || vs.len() == 1) {
-                            // |i64::MIN| as a running gcd: like the sums of avg / med, intermediate
-                            // results outside i64 are not specified
-                            return RV::Unspec("U3: a running gcd does not fit");
-                        }
+                    }
+                    if g > MAX {
+                        return RV::Unspec("U3: the gcd itself does not fit");
                     }
                     RV::Val(g as i64, q)
                 }
                 Lcm => {
-                    let mut l: i128 = vs[0].unsigned_abs() as i128;
-                    for v in &vs[1..] {
+                    // a zero argument makes it 0 wherever it stands; otherwise the running value never exceeds
+                    // the final one
+                    if vs.iter().any(|v| *v == 0) {
+                        return RV::Val(0, q);
+                    }
+                    let mut l: i128 = 1;
+                    for v in &vs {
                         let b = (*v as i128).abs();
-                        if l == 0 || b == 0 {
-                            l = 0;
-                        } else {
-                            l = l / gcd_i128(l, b) * b;
-                        }
+                        l = l / gcd_i128(l, b) * b;
                         if l > MAX {
                             return RV::Unspec("U3: lcm does not fit");
                         }
